@@ -123,7 +123,7 @@ RUNTIME_ENV = {
     "ASAN_OPTIONS": "abort_on_error=1:detect_leaks=0:allocator_may_return_null=1:handle_abort=0:"
                     "detect_stack_use_after_return=0:print_summary=1:malloc_context_size=8",
     "UBSAN_OPTIONS": "print_stacktrace=1:halt_on_error=1:abort_on_error=1",
-    "TSAN_OPTIONS": "halt_on_error=0:second_deadlock_stack=1:report_signal_unsafe=0",
+    "TSAN_OPTIONS": "halt_on_error=0:second_deadlock_stack=1:report_signal_unsafe=0:exitcode=0",
 }
 
 HARNESS_FUNC_RE = re.compile(r"^(run_C\d+|main|case_|viol|gb_|zvec_|snap_|oracle_|vp_|call_|do_|chk_|t_|w_)")
